@@ -23,6 +23,8 @@ def guard_of(key):
         return "JANET_MAX_MACRO_EXPAND"
     if fam == "form" and name.startswith("macex/"):
         return None
+    if name in ("get-deepest/tproto", "get-deepest/sproto"):
+        return "JANET_MAX_PROTO_DEPTH"
     if fam in ("dataj", "tail"):
         return None                          # Janet-level recursion: bounded by memory / JANET_STACK_MAX only
     if name.startswith("vm/small-maxstack"):
@@ -52,10 +54,18 @@ def main():
             continue                         # not monotone
         if b - 1 not in dict(grp):
             continue                         # boundary not pinned exactly
-        div = 1.0 if b >= 0.85 * G[g] else round(G[g] / float(b), 3)
+        if key.startswith("macro:") and abs(b - G["JANET_MAX_MACRO_EXPAND"]) > 40:
+            g = "JANET_RECURSION_GUARD"      # recursive macros that nest their expansion hit the compiler's guard first
+        # nesting levels consumed per unit depth: snap to a simple ratio when one fits
+        best = min((0.25, 0.5, 1, 2, 3, 4, 5, 6, 8), key=lambda k: abs(G[g] / k - b))
+        if abs(G[g] / best - b) <= max(8, 0.03 * G[g] / best):
+            div = float(best)
+        else:
+            div = round(G[g] / float(b), 4)
         centre = G[g] / div
         tol = max(8, int(0.03 * centre))
-        out[key] = {"guard": g, "div": div, "lo": int(round(b - centre)) - tol, "hi": int(round(b - centre)) + tol,
+        off = int(round(b - centre))
+        out[key] = {"guard": g, "div": div, "lo": off - tol, "hi": off + tol,
                     "measured_first_error": b, "measured_with": G[g]}
     with open(os.path.join(HERE, "windows.json"), "w") as f:
         json.dump(out, f, indent=0, sort_keys=True)
